@@ -79,3 +79,18 @@ func RandInt63n(n int64) int64 {
 }
 func RandInt31n(n int32) int32 { return int32(RandIntn(int(n))) }
 func RandFloat64() float64     { return float64(RandIntn(1<<20)) / float64(1<<20) }
+
+// AtomicPt is the scheduling point the instrumenter puts in front of every sync/atomic operation. It is
+// declined at the lock-yield rate, like the point in front of a lock acquisition.
+func AtomicPt() struct{} {
+	if t := Cur(); t != nil {
+		t.lockYield()
+	}
+	return struct{}{}
+}
+
+// Pre returns v; its first argument is evaluated before v (Go evaluates call arguments left to right).
+func Pre[T any](_ struct{}, v T) T { return v }
+
+// PreDo runs f after its first argument has been evaluated.
+func PreDo(_ struct{}, f func()) { f() }
